@@ -1,24 +1,26 @@
 (* C12 - a call limit never changes a result silently.
-   This file holds ONLY the pinned statements, the closing theorems, the refutation witnesses,
-   non-vacuity examples and Print Assumptions.  Model: PV.Comb.Exec (pest/src/parser_state.rs:
-   CallLimitTracker = fields calls/limit, inc_call_check_limit = inc_call, state() = outcome_of);
-   `fixedlim cfg = true` is state() with fixes/C12-1-state-ok-path.patch, `false` the code as shipped.
+   This file holds ONLY the pinned statements, the closing theorems, non-vacuity examples and
+   Print Assumptions.  Model: PV.Comb.Exec (pest/src/parser_state.rs: CallLimitTracker = fields
+   calls/limit, inc_call_check_limit = inc_call, state() = outcome_of); `fixedlim cfg = true` is state()
+   with fixes/C12-1-state-ok-path.patch, `false` the code as shipped.  Proofs: PV.Comb.CallComm (no state
+   function reads calls/limit), PV.Comb.CallLimit (exec_mono, exec_cl, refusal_sticky,
+   under_limit_simulation, lifted to state()), PV.Comb.CallLimitTop.
    Fuel: every run has its own explicit fuel and is assumed not to run out of it (OOutOfFuel);
    by exec_mono the result of a terminating run does not depend on the fuel. *)
 From Coq Require Import List Arith NArith Bool.
 Import ListNotations.
-Require Import PV.Comb.PState PV.Comb.Bytes PV.Comb.Prog PV.Comb.Exec PV.Comb.CallComm PV.Comb.CallLimit.
+Require Import PV.Comb.PState PV.Comb.Bytes PV.Comb.Prog PV.Comb.Exec PV.Comb.CallComm PV.Comb.CallLimit PV.Comb.CallLimitTop.
 
-(* One case: closure environment E, closure tree p, input, error-detail switch, limit L >= 0
-   (set_call_limit(NonZeroUsize) only produces L >= 1; the theorems hold for 0 as well). *)
+(* One case: closure environment E, closure tree p, input, error-detail switch, limit L
+   (set_call_limit(NonZeroUsize) only produces L >= 1; the theorems hold for 0 as well).
+   completes o := o is OPairs _ (Ok(pairs)) or OParsingError _ _ _ (the ordinary error). *)
 Definition C12_case (cfg : config) (E : env) (p : prog) (inp : list byte) (detail : bool) (L f1 f2 : nat) : Prop :=
   let a := parse_with cfg E f1 p inp (Some L) detail in        (* the parse with call limit L *)
   let b := parse_with cfg E f2 p inp None detail in            (* the parse with no limit    *)
   a <> OOutOfFuel -> b <> OOutOfFuel ->
   (* clause 1: exactly the unlimited result, or the "call limit reached" error (position unspecified) *)
   (a = b \/ exists ap, a = OCallLimit ap) /\
-  (* clause 2: a parse that completes (Ok(pairs) or ParsingError) under L completes identically
-     under every larger limit *)
+  (* clause 2: a parse that completes under L completes identically under every larger limit *)
   (completes a -> forall L' f3, L <= L' ->
      parse_with cfg E f3 p inp (Some L') detail <> OOutOfFuel ->
      parse_with cfg E f3 p inp (Some L') detail = a).
@@ -35,44 +37,26 @@ Definition C12_statement (cfg : config) : Prop :=
 Definition AbsorbedClass cfg E p inp detail L f1 : Prop := absorbed cfg E f1 p inp L detail = true.
 Definition PanicClass cfg E p inp detail L f1 : Prop := parse_with cfg E f1 p inp (Some L) detail = OPanic.
 
-Definition shipped : config := {| memchr := true; fixed3 := true; fixedlim := false |}.
-Definition repaired : config := {| memchr := true; fixed3 := true; fixedlim := true |}.
-
-(* ---- the code as shipped: refuted ---- *)
-(* rule 0 = repeat(rule 1 = match_string "x") on "xxxx", limit 3: Ok with one pair instead of four *)
-Definition w_prog : prog := PRule 0 (PRepeat (PRule 1 (PPrim (MMatchString [120%N])))).
-Definition w_input : list byte := [120; 120; 120; 120]%N.
+(* ---- state() as shipped: refuted ---- *)
+(* witness (CallLimitTop.c12_refuted): rule 0 = repeat(rule 1 = match_string "x") on "xxxx", limit 3:
+   Ok with one pair instead of four *)
 Definition C12_refuted_statement : Prop :=
   exists E p inp detail L f,
     let a := parse_with shipped E f p inp (Some L) detail in
     let b := parse_with shipped E f p inp None detail in
     completes a /\ completes b /\ a <> b.
 Theorem C12_refuted : C12_refuted_statement.
-Proof.
-  exists (fun _ => None), w_prog, w_input, false, 3, 20. vm_compute.
-  split; [exact I|split; [exact I|discriminate]].
-Qed.
-Corollary C12_shipped_not_statement : ~ C12_statement shipped.
-Proof.
-  intros H. pose proof (H (fun _ => None) w_prog w_input false 3 20 20) as H1. unfold C12_case in H1.
-  assert (N1 : parse_with shipped (fun _ => None) 20 w_prog w_input (Some 3) false <> OOutOfFuel) by (vm_compute; discriminate).
-  assert (N2 : parse_with shipped (fun _ => None) 20 w_prog w_input None false <> OOutOfFuel) by (vm_compute; discriminate).
-  destruct (H1 N1 N2) as [[D|[ap D]] _]; vm_compute in D; discriminate.
-Qed.
+Proof. exact c12_refuted. Qed.
+Theorem C12_shipped_not_statement : ~ C12_statement shipped.
+Proof. exact c12_shipped_not_statement. Qed.
 
-(* what does hold of the shipped code: the statement outside the two classes *)
+(* what does hold of the shipped code (of any configuration): the statement outside the two classes *)
 Definition C12_shipped_outside_classes_statement : Prop :=
   forall cfg E p inp detail L f1 f2,
     ~ AbsorbedClass cfg E p inp detail L f1 -> ~ PanicClass cfg E p inp detail L f1 ->
     C12_case cfg E p inp detail L f1 f2.
 Theorem C12_shipped_outside_classes : C12_shipped_outside_classes_statement.
-Proof.
-  intros cfg E p inp detail L f1 f2 NA NP Ha Hb. unfold AbsorbedClass in NA. unfold PanicClass in NP.
-  apply not_true_is_false in NA. split.
-  - destruct (limit_result_general cfg E p inp detail L f1 f2 Ha Hb) as [D|[D|[D|[_ D]]]]; auto; congruence.
-  - intros Hc L' f3 HL Hf.
-    apply (completion_stable_general cfg E p inp detail L (Some L') f1 f3); auto. split; auto.
-Qed.
+Proof. exact c12_shipped_outside_classes. Qed.
 
 (* ---- the repaired state(): the full statement for every parse that returns ---- *)
 Definition C12_repaired_statement : Prop :=
@@ -80,26 +64,28 @@ Definition C12_repaired_statement : Prop :=
   forall E p inp detail L f1 f2,
     ~ PanicClass cfg E p inp detail L f1 -> C12_case cfg E p inp detail L f1 f2.
 Theorem C12_call_limit_never_silent : C12_repaired_statement.
-Proof.
-  intros cfg F E p inp detail L f1 f2 NP Ha Hb. unfold PanicClass in NP. split.
-  - destruct (limit_result_general cfg E p inp detail L f1 f2 Ha Hb) as [D|[D|[D|[D _]]]]; auto; congruence.
-  - intros Hc L' f3 HL Hf.
-    apply (completion_stable_general cfg E p inp detail L (Some L') f1 f3); auto.
-    + split; auto.
-    + now apply completes_not_absorbed.
-Qed.
+Proof. exact c12_repaired. Qed.
 
-(* the PanicClass is not empty, also after the repair (so the literal statement, which has no
-   panic disjunct, is false of any state() wrapper): optional(optional(push_literal "a")) ; stack_pop
-   on "a", limit 1 - the inner optional is refused, the outer one absorbs it, stack_pop finds nothing *)
-Definition wp_prog : prog :=
-  PAndThen (POptional (POptional (PPrim (MStackPushLit [97%N])))) (PPrim MStackPop).
+(* clause 1 once more, without a class hypothesis: equal, or the error, or a panic *)
+Definition C12_trichotomy_statement : Prop :=
+  forall cfg, fixedlim cfg = true ->
+  forall E p inp detail L f1 f2,
+    let a := parse_with cfg E f1 p inp (Some L) detail in
+    let b := parse_with cfg E f2 p inp None detail in
+    a <> OOutOfFuel -> b <> OOutOfFuel ->
+    a = b \/ (exists ap, a = OCallLimit ap) \/ a = OPanic.
+Theorem C12_trichotomy : C12_trichotomy_statement.
+Proof. exact c12_repaired_trichotomy. Qed.
+
+(* the PanicClass is not empty, also after the repair (so the statement without the class hypothesis is
+   false of any state() wrapper): optional(optional(push_literal "a")) ; stack_pop on "a", limit 1 - the
+   inner optional is refused, the outer one absorbs it, stack_pop finds nothing; without limit: Ok *)
 Definition C12_panic_class_inhabited_statement : Prop :=
   exists E p inp detail L f,
     parse_with repaired E f p inp (Some L) detail = OPanic /\
     completes (parse_with repaired E f p inp None detail).
 Theorem C12_panic_class_inhabited : C12_panic_class_inhabited_statement.
-Proof. exists (fun _ => None), wp_prog, [97%N], false, 1, 20. vm_compute. split; [reflexivity|exact I]. Qed.
+Proof. exact c12_panic_class_inhabited. Qed.
 
 (* ... and a panic is never internal to pest (no Vec index / splice / underflow / unreachable!):
    it is stack_pop/stack_peek on an empty stack, an undefined closure or a non-boundary slice *)
@@ -110,48 +96,57 @@ Proof. exact parse_no_internal_panic. Qed.
 
 (* the supporting facts named in the design *)
 Definition C12_lemmas_statement : Prop :=
-  (* the counter is monotone and the limit constant along every run *)
+  (* the counter is monotone and the limit constant along every run (cl s s' := limit s' = limit s /\ calls s <= calls s') *)
   (forall cfg E fuel p s, res_cl s (exec cfg E fuel p s)) /\
   (* a refusal is sticky: once calls >= limit, every later state has calls >= limit *)
   (forall cfg E fuel p s, limit_reached s = true -> res_reached (exec cfg E fuel p s)) /\
   (* fuel monotonicity *)
   (forall cfg E f f' p s, f <= f' -> exec cfg E f p s <> ROutOfFuel -> exec cfg E f' p s = exec cfg E f p s) /\
-  (* under_limit_simulation: a run under L from a state with calls/limit replaced by a laxer pair
-     (no limit, or L' >= L with the same count) is the same run on all other fields, unless the
-     run under L ends with the limit reached *)
+  (* under_limit_simulation: the run under L from sA, and the run from sA with calls/limit replaced by a laxer
+     pair (no limit, or L' >= L with the same count): same result constructor and same state on all other
+     fields (recl), unless the run under L ends with the limit reached *)
   (forall cfg E L l fuel p sA c, limit sA = Some L -> lax L (calls sA) c l ->
      simpost L l (exec cfg E fuel p sA) (exec cfg E fuel p (recl sA c l))).
 Theorem C12_lemmas : C12_lemmas_statement.
-Proof.
-  split; [exact exec_cl|]. split; [exact refusal_sticky|]. split; [exact exec_mono|exact under_limit_simulation].
-Qed.
+Proof. exact c12_lemmas. Qed.
 
-(* ---- non-vacuity (repaired model, the witness grammar): 7 calls are needed ---- *)
-Definition run_w (lim : option nat) : outcome := parse_with repaired (fun _ => None) 20 w_prog w_input lim false.
+(* ---- non-vacuity (the witness tree): the unlimited parse makes 7 calls ---- *)
+Definition run_w (cfg : config) (lim : option nat) : outcome := parse_with cfg w_env 20 w_prog w_input lim false.
 Example C12_example_unlimited :
-  run_w None = OPairs [QStart 9 0; QStart 2 0; QEnd 1 1 None 1; QStart 4 1; QEnd 3 1 None 2; QStart 6 2; QEnd 5 1 None 3;
-                       QStart 8 3; QEnd 7 1 None 4; QEnd 0 0 None 4].
+  run_w repaired None = OPairs [QStart 9 0; QStart 2 0; QEnd 1 1 None 1; QStart 4 1; QEnd 3 1 None 2; QStart 6 2; QEnd 5 1 None 3;
+                                QStart 8 3; QEnd 7 1 None 4; QEnd 0 0 None 4].
 Proof. vm_compute. reflexivity. Qed.
+(* repaired: limits 1..7 give the error, 8.. the unlimited result *)
 Example C12_example_sweep :
-  map (fun L => completesb (run_w (Some L))) [1; 2; 3; 4; 5; 6; 7; 8; 9; 10] =
+  map (fun L => completesb (run_w repaired (Some L))) [1; 2; 3; 4; 5; 6; 7; 8; 9; 10] =
   [false; false; false; false; false; false; false; true; true; true]
-  /\ (forall L, In L [1; 2; 3; 4; 5; 6; 7] -> exists ap, run_w (Some L) = OCallLimit ap)
-  /\ (forall L, In L [8; 9; 10] -> run_w (Some L) = run_w None).
+  /\ (forall L, In L [1; 2; 3; 4; 5; 6; 7] -> exists ap, run_w repaired (Some L) = OCallLimit ap)
+  /\ (forall L, In L [8; 9; 10] -> run_w repaired (Some L) = run_w repaired None).
 Proof.
   split; [vm_compute; reflexivity|]. split; intros L H; cbn in H;
     repeat (destruct H as [<-|H]; [vm_compute; eauto|]); destruct H.
 Qed.
-(* the shipped model on the same sweep (token counts): limits 2..5 return Ok with 0..3 inner pairs
-   instead of 4; with 6 the refused call is the one that would have failed anyway *)
+(* shipped, token counts: limits 2..5 return Ok with 0..3 inner pairs instead of 4 (with 6 the refused
+   call is the one that would have failed anyway) *)
 Example C12_example_shipped_sweep :
-  map (fun L => match parse_with shipped (fun _ => None) 20 w_prog w_input (Some L) false with
-                | OPairs q => Some (length q) | _ => None end) [1; 2; 3; 4; 5; 6; 7; 8]
+  map (fun L => match run_w shipped (Some L) with OPairs q => Some (length q) | _ => None end) [1; 2; 3; 4; 5; 6; 7; 8]
   = [None; Some 2; Some 4; Some 6; Some 8; Some 10; Some 10; Some 10].
 Proof. vm_compute. reflexivity. Qed.
 
+(* the fuel hypothesis on the limited run is not implied by termination of the unlimited one: a hand-written
+   closure tree whose loop body absorbs the refusal through or_else and then succeeds without consuming
+   (wd_prog) exhausts any fuel tried under limit 1 and completes without limit.  Through a grammar this
+   cannot happen: the VM and the generator count a call in every iteration of a repetition. *)
+Example C12_example_limit_only_divergence :
+  parse_with repaired w_env 400 wd_prog wd_input (Some 1) false = OOutOfFuel /\
+  completes (parse_with repaired w_env 400 wd_prog wd_input None false).
+Proof. vm_compute. split; [reflexivity|exact I]. Qed.
+
 Print Assumptions C12_call_limit_never_silent.
+Print Assumptions C12_trichotomy.
 Print Assumptions C12_shipped_outside_classes.
 Print Assumptions C12_refuted.
+Print Assumptions C12_shipped_not_statement.
 Print Assumptions C12_panic_class_inhabited.
 Print Assumptions C12_panic_is_client_side.
 Print Assumptions C12_lemmas.
